@@ -361,6 +361,31 @@ def reportTargetPortGroups (data : Bytes) : Except PyErr PV := do
   let ds ← tpgDescriptors d
   pure (.dict (result.set "target_port_group_descriptors" (.list ds)))
 
+/-! ### REPORT PRIORITY -/
+
+/-- loop of `ReportPriority.unmarshall_datain`: stride `8 + additional descriptor length ≥ 8` -/
+def priorityDescriptors (d : Bytes) : Except PyErr (List PV) :=
+  if _h : d.length = 0 then .ok []
+  else
+    match decodeInto d Gen.ReportPriority_data_bits [] with
+    | .error e => .error e
+    | .ok r =>
+      match getInt r "adlen" with
+      | .error e => .error e
+      | .ok adlen =>
+        match priorityDescriptors (d.drop (adlen + 8)) with
+        | .error e => .error e
+        | .ok rest => .ok (.dict (r.set "transport_id" (.bytes (slice d 8 (8 + adlen)))) :: rest)
+termination_by d.length
+decreasing_by
+  simp only [List.length_drop]
+  omega
+
+/-- `ReportPriority.unmarshall_datain` -/
+def reportPriority (data : Bytes) : Except PyErr PV := do
+  let ds ← priorityDescriptors (slice data 4 (b2i (slice data 0 4) + 4))
+  pure (.dict [("priority_descriptors", .list ds)])
+
 /-! ### PERSISTENT RESERVE IN: READ FULL STATUS -/
 
 /-- bytes → text: only printable ASCII is modelled (`.decode("utf-8").rstrip("\0")`) -/
